@@ -139,3 +139,34 @@ Definition known_vars (poly : hpoly) (cons : list cons4) : list label :=
   hvars poly ++ map prod_of (map drop_aux cons).
 Definition valid_cons4 (poly : hpoly) (cons : list cons4) : bool :=
   valid_cons (hvars poly) (map drop_aux cons) && valid_aux (known_vars poly cons) cons.
+
+(* ---------- the greedy loop of reduce_binary_polynomial with an ARBITRARY choice of the pair ----------
+   `ch` stands for the frequency index / queue: it returns a pair occurring together in some term
+   of degree > 2, or None when there is none.  Product variables are numbered fresh, fresh+1, ... *)
+Definition excess (p : hpoly) : nat := fold_right (fun t acc => (length (fst t) - 2 + acc)%nat) 0%nat p.
+
+Definition choice := hpoly -> option (label * label).
+
+Fixpoint reduce_loop (fuel : nat) (ch : choice) (fresh : nat) (p : hpoly) : hpoly * list cons3 :=
+  match fuel with
+  | O => (p, [])
+  | S f =>
+      match ch p with
+      | None => (p, [])
+      | Some (u, v) =>
+          let c := (u, v, fresh) in
+          let '(r, cs) := reduce_loop f ch (S fresh) (subst_step c p) in (r, c :: cs)
+      end
+  end.
+
+(* one admissible choice function: the first two variables of the first term of degree > 2 *)
+Fixpoint first_pair (p : hpoly) : option (label * label) :=
+  match p with
+  | [] => None
+  | t :: r => match fst t with
+              | u :: v :: _ :: _ => Some (u, v)
+              | _ => first_pair r
+              end
+  end.
+
+Definition fresh_above (p : hpoly) : nat := S (fold_right Nat.max 0%nat (hvars p)).
